@@ -659,7 +659,8 @@ func (state *BuildState) forwardResults() {
 			log.Debug("%s", r)
 		}
 	}()
-	activeTargets := map[*BuildTarget]struct{}{}
+	// Keyed by label rather than target since errors are logged with only a label.
+	activeTargets := map[BuildLabel]struct{}{}
 	// Persist this one timer throughout so we don't generate bazillions of them.
 	t := time.NewTimer(cycleCheckDuration)
 	t.Stop()
@@ -682,12 +683,14 @@ func (state *BuildState) forwardResults() {
 		} else {
 			result = <-state.progress.internalResults
 		}
-		if target := result.target; target != nil {
-			if result.Status.IsActive() {
-				activeTargets[target] = struct{}{}
-			} else {
-				delete(activeTargets, target)
+		if result.Status.IsActive() {
+			if result.target != nil {
+				activeTargets[result.Label] = struct{}{}
 			}
+		} else {
+			// N.B. Must not depend on the result having a target; failures (LogBuildError) don't, and if
+			//      a failed target stayed here forever we'd never again check for cycles.
+			delete(activeTargets, result.Label)
 		}
 		state.progress.mutex.Lock()
 		if state.progress.results != nil {
